@@ -877,10 +877,10 @@ impl Component for LinkCc {
                     Err(why) => mon.count(why),
                     Ok(trace) => {
                         mon.count("looptrace-scenario");
-                        if trace.iter().any(|t| t.links.iter().any(|l| l.cc_state != "bootstrap" && !l.cc_state.is_empty())) {
+                        if trace.ticks.iter().any(|t| t.links.iter().any(|l| l.cc_state != "bootstrap" && !l.cc_state.is_empty())) {
                             mon.nontrivial();
                         }
-                        verif_harness::looptrace::monitors_c16(&trace, &sc, mon);
+                        verif_harness::looptrace::monitors_c16(&trace.ticks, &sc, mon);
                     }
                 }
                 "looptrace-ok".into()
